@@ -168,7 +168,7 @@ func init() {
 		v, n = merge(v, n, v3, n3)
 		v4, n4 := csmapMutators(eng, "ConcurrentSwissMap_of_uint16_ptr.models.Offset", set("stream.(*stream).setOffset", "stream.(*checkpoint).Load$1", "stream.(*checkpoint).Load$2"))
 		v, n = merge(v, n, v4, n4)
-		v5, n5 := csmapMutators(eng, "ConcurrentSwissMap_of_uint16_bool", set("stream.(*stream).setOffset", "stream.(*checkpoint).Load$1"))
+		v5, n5 := csmapMutators(eng, "ConcurrentSwissMap_of_uint16_bool", set("stream.(*stream).setOffset", "stream.(*checkpoint).Load$1", "stream.(*checkpoint).Save"))
 		v, n = merge(v, n, v5, n5)
 		v6, n6 := storesToField(eng, "stream.stream", "vbIDRange", set("stream.(*stream).Open"))
 		return merge(v, n, v6, n6)
